@@ -204,7 +204,7 @@ def gen_case(rng, stype, timeout, reqlen):
             evs.append(["req", c, tgt, act, rng.randrange(I.NRES)])
         elif r < 0.68:
             evs.append(["raise", c, tgt, "plain"])
-        elif timeout and r < 0.78 and ntimeouts < 2:
+        elif timeout and r < 0.80 and ntimeouts < 2 and (r >= 0.68 or rng.random() < 0.25):
             ntimeouts += 1
             k = rng.choice([0, 1, 5, 6, 7, 39, 40, 41, reqlen - 1, rng.randrange(1, reqlen)])
             evs.append(["timeout", c, k])
@@ -225,6 +225,8 @@ def gen_case(rng, stype, timeout, reqlen):
             else:
                 evs.append(["end", c, how])
             alive.remove(c)
+    if timeout and ntimeouts == 0 and alive:
+        evs.append(["timeout", rng.choice(alive), rng.choice([0, 1, 6, 40, reqlen - 1])])
     return {"stype": stype, "timeout": timeout, "events": evs}
 
 
@@ -262,7 +264,7 @@ def gen_cases(ctx, reqlen):
     rng = ctx.rng
     cases = []
     n_plain = ctx.n(1300, 12000)
-    n_to = ctx.n(72, 700)
+    n_to = ctx.n(160, 900)
     for i in range(n_plain):
         cases.append(gen_case(rng, "thread" if i % 2 == 0 else "multiplex", False, reqlen))
     for i in range(n_to):
